@@ -20,10 +20,13 @@ from . import boot
 SRC = os.path.join(boot.SRC, "ovld") + os.sep
 
 
+_REAL_LOCK = threading.Lock  # the harness' own gates stay real locks while threading.Lock is replaced for the library
+
+
 def _gate():
     """a closed gate: release() opens it once, acquire() passes and closes it again (a C-level lock is much faster
     than threading.Semaphore; hand-offs strictly alternate, so a binary gate is enough)"""
-    g = threading.Lock()
+    g = _REAL_LOCK()
     g.acquire()
     return g
 
